@@ -204,6 +204,10 @@ def main(argv):
         "wall_s": round(time.time() - t0, 1),
         "violations": len(violations) + (1 if (problems and not violations) else 0),
     }
+    if mod.LEVEL == "proof" and ev["coverage"]["discharged"] < 1:
+        # a broken proof obligation: this run is not proof-level evidence; keep the exploration-style counts only
+        ev["coverage"]["obligations_broken"] = ev["coverage"].pop("obligations")
+        ev["coverage"].pop("discharged")
     if mod.LEVEL == "translation_validation":
         ev["coverage"]["programs"] = max(evaluations, 1)
         ev["coverage"]["disagreements_checked"] = sum(len(r["tie_bad"]) + len(r["spec_bad"]) for _, r in stream_results)
